@@ -16,7 +16,7 @@ GenActs(s) ==
           r \in {"ok", "err"}}
   \cup [op : {"close", "wok", "rok", "panic"}, s : {s}]
   \cup [op : {"wfault"}, s : {s}, n : 0..2]
-  \cup [op : {"rfault"}, s : {s}, k : {"eof", "err", "timeout", "herr"}]
+  \cup [op : {"rfault"}, s : {s}, k : {"eof", "err", "timeout", "herr", "dl"}]
 
 Held == "hold" \in DOMAIN last /\ last.hold
 
@@ -37,6 +37,9 @@ GenNext ==
   \/ Ext({"close"}, TRUE)
   \/ Ext({"wfault", "rfault", "panic"}, TRUE)
   \/ Ext({"send", "close"}, FALSE)
+  \/ /\ Quiescent /\ ~Held           \* executor-only: the next SetWriteDeadline of s fails
+     /\ \E s \in Sess : ss[s].st = "run" /\ ~Ended(ss[s])
+                         /\ UNCHANGED vars /\ last' = [op |-> "wdl", s |-> s, hold |-> FALSE]
   \/ /\ ~Quiescent /\ ~Held
      /\ \E s \in Sess : Internal(s) /\ last' = Tau
   \/ /\ TLCGet("level") >= Depth - 1     \* marks the behaviour that is written out
